@@ -25,6 +25,8 @@ impl ThreadPark {
         let mut result = Ok(());
         let mut guard = self.lock.lock();
         while *guard == 0 && result.is_ok() {
+            #[cfg(may_verif)]
+            crate::verif::note("tp.wait", crate::verif::addr(self), dur.is_some() as usize);
             match dur {
                 None => self.cvar.wait(&mut guard),
                 Some(t) => {
@@ -35,6 +37,8 @@ impl ThreadPark {
                 }
             };
         }
+        #[cfg(may_verif)]
+        crate::verif::note("tp.wake", crate::verif::addr(self), result.is_err() as usize);
         // must clear the status
         *guard = 0;
         result
@@ -44,6 +48,8 @@ impl ThreadPark {
         let mut guard = self.lock.lock();
         if *guard == 0 {
             *guard = 1;
+            #[cfg(may_verif)]
+            crate::verif::note("tp.unpark", crate::verif::addr(self), 0);
             self.cvar.notify_one();
         }
     }
@@ -140,6 +146,8 @@ pub struct SyncBlocker {
 impl SyncBlocker {
     pub fn current() -> Arc<Self> {
         let blocker = Blocker::new(true);
+        #[cfg(may_verif)]
+        crate::verif::note("sb.new", 0, 0);
 
         Arc::new(SyncBlocker {
             unparked: AtomicBool::new(false),
@@ -150,28 +158,48 @@ impl SyncBlocker {
 
     #[inline]
     pub fn is_unparked(&self) -> bool {
+        #[cfg(may_verif)]
+        crate::verif::pt("sb.is_unparked", crate::verif::addr(self), 0, 0);
         self.unparked.load(Ordering::Acquire)
     }
     // set the Flag for the release action
     #[inline]
     pub fn set_release(&self) {
+        #[cfg(may_verif)]
+        crate::verif::pt("sb.set_release", crate::verif::addr(self), 0, 0);
         self.release.store(true, Ordering::Release);
     }
 
     // take the release Flag
     #[inline]
     pub fn take_release(&self) -> bool {
+        #[cfg(may_verif)]
+        crate::verif::pt("sb.take_release", crate::verif::addr(self), 0, 0);
         self.release.swap(false, Ordering::Acquire)
     }
 
     #[inline]
+    #[cfg_attr(may_verif, allow(unreachable_code))]
     pub fn park(&self, timeout: Option<Duration>) -> Result<(), ParkError> {
+        #[cfg(may_verif)]
+        {
+            let me = crate::verif::addr(self);
+            let dur = timeout.map_or(0, |d| d.as_nanos() as usize);
+            crate::verif::pt("sb.park", me, timeout.is_some() as usize, dur);
+            let r = self.blocker.park(timeout);
+            crate::verif::pt("sb.park.ret", me, crate::verif::park_code(&r), 0);
+            return r;
+        }
         self.blocker.park(timeout)
     }
 
     #[inline]
     pub fn unpark(&self) {
+        #[cfg(may_verif)]
+        crate::verif::pt("sb.unpark", crate::verif::addr(self), 0, 0);
         self.blocker.unpark();
+        #[cfg(may_verif)]
+        crate::verif::pt("sb.set_unparked", crate::verif::addr(self), 0, 0);
         self.unparked.store(true, Ordering::Release);
     }
 }
